@@ -112,3 +112,63 @@ def agg_s(ex, k):
         acc = (acc + v) % N
     want = (acc + e_ * g_ * tacc_) % N
     return {"all_in_range": sand(*[v < N for v in vals]), "aggregate_scalar": s == want, "x_R": x_R == 77}
+
+
+# ------------------------------------------------------------------ BIP352 sender: one key per address, in address order, with a counter per scan key
+from btclib import silent_payments as _sp
+
+
+@ob("C16", "silent_payment_keys_cover_every_address_with_a_counter_per_scan_key", quick=[dict(n=n) for n in (1, 2, 3)], thorough=[dict(n=n) for n in (1, 2, 3, 4)],
+    bound="n = 1..3 (thorough 4) recipient addresses whose scan keys are symbolic over three values (so every pattern of repeated, adjacent and interleaved scan keys), distinct spend keys: "
+          "output_keys returns exactly one key per address, each derived as output_key(shared secret of that address's scan key, its spend key, k) where k is the number of earlier addresses of "
+          "the same scan key -- so that each scanner, counting k up from 0, finds every output of its group. The order of the returned list is NOT claimed (the property does not state it; see DESIGN 6.2)",
+    stubs=["keys_from_address, prv_key_sum, input_hash, mult, shared_secret and output_key are abstract (symbolic scan keys; output_key records its arguments): the elliptic-curve part is C01/C03's subject"],
+    functions=["btclib.silent_payments.output_keys"], min_ok=1, timeout=300)
+def sp_output_counters(ex, n):
+    scans = [ex.int(f"scan{i}", 0, 2) for i in range(n)]
+    table = {f"addr{i}": ((scans[i], 1), (100 + i, 1), "main") for i in range(n)}
+    ex.stub(_sp.keys_from_address, lambda a: table[a])
+    ex.stub(_sp.prv_key_sum, lambda pk: 5)
+    ex.stub(_sp.input_hash, lambda ops, A: 7)
+    ex.stub(_sp.mult, lambda *a, **k: (9, 1))
+    ex.stub(_sp.shared_secret, lambda scalar, point: ("secret", point[0]))
+    ex.stub(_sp.output_key, lambda secret, B_m, k: (secret[1], B_m[0], k))
+    got = _sp.output_keys([(1, b"")], [object()], [f"addr{i}" for i in range(n)])
+    claims = {"one_key_per_address": len(got) == n}
+    if len(got) == n:
+        for i in range(n):
+            k_i = sum(ite(scans[j] == scans[i], 1, 0) for j in range(i)) if i else 0
+            # the spend keys are distinct, so the key made for address i is the one carrying its spend key
+            claims[f"address_{i}_has_its_key_with_its_counter"] = sor(*[sand(g[0] == scans[i], g[1] == 100 + i, g[2] == k_i) for g in got])
+    return claims
+
+
+from btclib.psbt import silent_payments as _psp
+
+
+class _Out:
+    def __init__(self, info):
+        self.sp_v0_info = info
+
+
+@ob("C16", "psbt_silent_payment_scripts_count_k_per_scan_key", quick=[dict(n=n) for n in (1, 2, 3)], thorough=[dict(n=n) for n in (1, 2, 3, 4)],
+    bound="a PSBT with n = 1..3 (thorough 4) silent-payment outputs whose scan keys are symbolic over three values (repeated, adjacent and interleaved patterns), distinct spend keys: "
+          "output_scripts derives output i from the shared secret of its scan key, its spend key and k = the number of earlier silent-payment outputs of the same scan key",
+    stubs=["_ordered_sp_outputs, _share_and_sum, shared_secret_from_share, output_key and script serialization are abstract (they record their arguments)"],
+    functions=["btclib.psbt.silent_payments.output_scripts"], min_ok=1, timeout=300)
+def psbt_sp_counters(ex, n):
+    scans = [ex.int(f"scan{i}", 0, 2) for i in range(n)]
+    outs = [(i, _Out(bytes([2, scans[i]]) + b"\x00" * 31 + bytes([3, 100 + i]) + b"\x00" * 31)) for i in range(n)]
+    ex.stub(_psp._ordered_sp_outputs, lambda psbt: outs)
+    ex.stub(_psp._share_and_sum, lambda psbt, scan_key: (("share", scan_key[1]), "A"))
+    ex.stub(_psp.shared_secret_from_share, lambda psbt, share, A: ("secret", share[1]))
+    ex.stub(_psp.sp.output_key, lambda secret, B_m, k: (secret[1], B_m[1], k))
+    ex.stub(_psp.serialize, lambda items: items[1])
+    got = _psp.output_scripts(object())
+    claims = {"one_script_per_output": len(got) == n}
+    if len(got) == n:
+        for i in range(n):
+            k_i = sum(ite(scans[j] == scans[i], 1, 0) for j in range(i)) if i else 0
+            g = got[i]
+            claims[f"output_{i}"] = sand(g[0] == scans[i], g[1] == 100 + i, g[2] == k_i)
+    return claims
